@@ -64,13 +64,48 @@ def _gen_ok(run, g, genset):
     return g
 
 
-def _replay(vh, universe, behs, negative=False, workers=8):
+def _replay_once(vh, universe, behs, negative, workers):
     args = ["lq-replay", "-workers", str(workers)] + (["-negative"] if negative else [])
     lines = [json.dumps(universe, separators=(",", ":"))] + [json.dumps(b, separators=(",", ":")) for b in behs]
-    rc, outs, err = vlib.run_vh(vh, args, stdin_lines=lines, timeout=3000)
-    summ = [o for o in outs if o.get("summary")]
-    vlib.require(summ and summ[0]["behaviours"] == len(behs), "replay did not process all behaviours")
-    return outs, summ[0]
+    rc, outs, err = vlib.run_vh(vh, args, stdin_lines=lines, timeout=3000, check=False)
+    crashed = rc != 0 and ("panic:" in err or "fatal error:" in err or "goroutine " in err)
+    if rc != 0 and not crashed:
+        raise vlib.MachineryError("lq-replay failed rc=%s\nstderr: %s" % (rc, err[-3000:]))
+    return crashed, outs, err
+
+
+def _replay(vh, universe, behs, negative=False, workers=8):
+    """replay behaviours; returns (output lines with 'id' = index into behs, merged summary, crashes).
+    The code under test runs parts of a query on goroutines of its own: a panic there kills the harness
+    process.  Such a crash is bisected down to single behaviours (reported by the caller), the rest is
+    replayed normally."""
+    outs_all, crashes = [], []
+    summ = collections.Counter()
+    notes = []
+    work = [(0, len(behs))]
+    while work:
+        lo, hi = work.pop()
+        crashed, outs, err = _replay_once(vh, universe, behs[lo:hi], negative, workers)
+        if crashed:
+            if hi - lo == 1 or len(crashes) >= 3:
+                crashes.append((lo, err))
+            else:
+                mid = (lo + hi) // 2
+                work += [(mid, hi), (lo, mid)]
+            continue
+        s = [o for o in outs if o.get("summary")]
+        vlib.require(s and s[0]["behaviours"] == hi - lo, "replay did not process all behaviours")
+        for k, v in s[0].items():
+            if isinstance(v, int) and not isinstance(v, bool):
+                summ[k] += v
+        notes += s[0].get("stored_part_notes") or []
+        for o in outs:
+            if "id" in o:
+                o["id"] += lo
+                outs_all.append(o)
+    res = dict(summ)
+    res["stored_part_notes"] = notes[:5]
+    return outs_all, res, crashes
 
 
 def main():
@@ -116,7 +151,13 @@ def main():
             universe = g.infos[0]
             behs += g.traces
             run.cov.setdefault("behaviours_per_family", {})[gs] = len(g.traces)
-        outs, summ = _replay(vh, universe, behs)
+        outs, summ, crashes = _replay(vh, universe, behs)
+        for at, err in crashes:
+            i = err.find("panic:")
+            run.violation({"cls": "query-panics", "binding": "F"},
+                          {"kind": "lq-replay", "universe": universe, "behaviour": behs[at],
+                           "msg": "the query engine panicked on a goroutine of its own while this schedule was executed "
+                                  "(harness process died): " + err[max(i, 0):][:3000]})
         run.count(summ["steps"])
         run.cov["traces_validated_against_impl"] += 2 * len(behs)
         run.cov["live_queries_compared"] = summ["live_queries"]
@@ -152,7 +193,8 @@ def main():
 
         # ---- negative control: one expected live row corrupted per behaviour must be rejected
         g = _gen_ok(run, res["gen-pos2"], "pos2")
-        nouts, nsumm = _replay(vh, g.infos[0], g.traces, negative=True)
+        nouts, nsumm, ncrashes = _replay(vh, g.infos[0], g.traces, negative=True)
+        vlib.require(not ncrashes, "negative control crashed")
         rejected = {o["id"] for o in nouts if o.get("ok") is False and o["desc"].get("cls") == "live-rows-differ"}
         vlib.require(len(rejected) == len(g.traces),
                      "negative control: %d of %d behaviours with a corrupted expected live row were accepted" %
@@ -177,8 +219,10 @@ def main():
 def replay(path):
     d = json.load(open(path))["replay"]
     vh = vlib.build_vh(FAMILY)
-    outs, summ = _replay(vh, d["universe"], [d["behaviour"]], workers=1)
-    bad = [o for o in outs if o.get("ok") is False or o.get("drift")]
+    outs, summ, crashes = _replay(vh, d["universe"], [d["behaviour"]], workers=1)
+    for at, err in crashes:
+        print("harness process died:\n" + err[-3000:])
+    bad = [o for o in outs if o.get("ok") is False or o.get("drift")] or crashes
     for o in bad or outs:
         o.pop("behaviour", None)
         print(json.dumps(o, indent=1)[:3000])
